@@ -7,6 +7,7 @@ import (
 	"encoding/hex"
 	"fmt"
 	"strings"
+	"time"
 
 	am "github.com/pancsta/asyncmachine-go/pkg/machine"
 
@@ -66,9 +67,20 @@ func exec1(spec gen.SchemaSpec, schema am.Schema, veto map[string]bool, hist []g
 	tr := rec.NewTracer("rec")
 	tr.NoSample = true
 	m := am.New(context.Background(), schema, &am.Opts{Id: "det", Tracers: []am.Tracer{tr},
-		DontLogId: true, DontLogStackTrace: true})
+		DontLogId: true, DontLogStackTrace: true,
+		// generous: a handler timeout on a loaded machine would be a difference
+		// between runs that the machine is not to blame for
+		HandlerTimeout: 30 * time.Second})
 	hl := &rec.HLog{}
+	faults := map[string]int{}
 	_, _ = rec.BindMaps(m, hl, 0, rec.AllHandlerNames(gen.Sorted(spec.Names)), func(c *rec.HCall, e *am.Event) bool {
+		// "!name" entries are handlers that fault, the first two times they are
+		// called (an Auto state is retried after every Exception: a handler that
+		// faults for good would never let the machine settle)
+		if veto["!"+c.Name] && faults[c.Name] < 2 {
+			faults[c.Name]++
+			panic("c11 fault")
+		}
 		return !veto[c.Name]
 	})
 	var f fp
@@ -89,7 +101,7 @@ func exec1(spec gen.SchemaSpec, schema am.Schema, veto map[string]bool, hist []g
 			r = m.Toggle(st, args)
 		}
 		rs = append(rs, rec.ResStr(r))
-		ts = append(ts, fmt.Sprint(m.Time(nil)))
+		ts = append(ts, fmt.Sprint(m.Time(nil), m.ActiveStates(nil)))
 	}
 	var cs []string
 	for _, c := range hl.Snapshot() {
@@ -220,6 +232,14 @@ func (eng) Run(c core.CaseDesc, tier string) *core.CaseResult {
 	for _, n := range rec.AllHandlerNames(gen.Sorted(spec.Names)) {
 		if rec.IsNegotiation(n) && r.IntN(12) == 0 {
 			veto[n] = true
+		}
+	}
+	// a third of the cases: some End handlers panic the first two times they are called
+	if r.IntN(3) == 0 {
+		for _, n := range spec.Names {
+			if r.IntN(4) == 0 {
+				veto["!"+n+"End"] = true
+			}
 		}
 	}
 	hist := gen.RandHistory(r, spec.Names, []string{"add", "remove", "set", "toggle", "add"}, 10+r.IntN(16))
